@@ -172,7 +172,10 @@ namespace ST
                 return *this;
 
             if (is_reffed()) {
+                // Stay valid (empty) in case the allocation below throws
                 delete[] m_chars;
+                m_chars = m_data;
+                m_data[0] = 0;
                 m_size = 0;
             }
 
@@ -407,13 +410,12 @@ namespace ST
 
         void allocate(size_t size)
         {
-            if (is_reffed())
-                delete[] m_chars;
-            else
-                traits_t::assign(m_data, local_length, 0);
+            // Reach a valid empty state first, in case the allocation below throws
+            clear();
 
+            if (size >= local_length)
+                m_chars = new char_T[size + 1];
             m_size = size;
-            m_chars = is_reffed() ? new char_T[m_size + 1] : m_data;
             m_chars[m_size] = 0;
         }
 
